@@ -193,7 +193,7 @@ func (s *Service) Open() error {
 	}
 
 	s.wg.Add(1)
-	go s.purgeInactiveProcessors()
+	go s.purgeInactiveProcessors(s.closing)
 
 	return nil
 }
@@ -201,26 +201,34 @@ func (s *Service) Open() error {
 // Close closes the hinted handoff service.
 func (s *Service) Close() error {
 	s.Logger.Info("Shutting down hinted handoff service")
-	s.mu.Lock()
-	defer s.mu.Unlock()
+	if err := func() error {
+		s.mu.Lock()
+		defer s.mu.Unlock()
 
-	for _, processors := range s.processors {
-		for _, p := range processors {
-			if err := p.Close(); err != nil {
-				return err
+		for _, processors := range s.processors {
+			for _, p := range processors {
+				if err := p.Close(); err != nil {
+					return err
+				}
 			}
 		}
+
+		if s.Monitor != nil {
+			s.Monitor.DeregisterDiagnosticsClient("hh")
+		}
+
+		if s.closing != nil {
+			close(s.closing)
+			s.closing = nil
+		}
+		return nil
+	}(); err != nil {
+		return err
 	}
 
-	if s.Monitor != nil {
-		s.Monitor.DeregisterDiagnosticsClient("hh")
-	}
-
-	if s.closing != nil {
-		close(s.closing)
-	}
+	// The purge goroutine takes s.mu on every tick; waiting for it while holding
+	// the lock deadlocks when a tick is pending.
 	s.wg.Wait()
-	s.closing = nil
 
 	return nil
 }
@@ -331,19 +339,26 @@ func (s *Service) Diagnostics() (*diagnostics.Diagnostics, error) {
 }
 
 // purgeInactiveProcessors will cause the service to remove processors for inactive nodes.
-func (s *Service) purgeInactiveProcessors() {
+func (s *Service) purgeInactiveProcessors(closing <-chan struct{}) {
 	defer s.wg.Done()
 	ticker := time.NewTicker(time.Duration(s.cfg.PurgeInterval))
 	defer ticker.Stop()
 
 	for {
 		select {
-		case <-s.closing:
+		case <-closing:
 			return
 		case <-ticker.C:
 			func() {
 				s.mu.Lock()
 				defer s.mu.Unlock()
+
+				select {
+				case <-closing:
+					// Closed while waiting for the lock: the processors are closed.
+					return
+				default:
+				}
 
 				for nodeID, processors := range s.processors {
 					for shardID, p := range processors {
